@@ -257,6 +257,7 @@ func c14GoAwayScenario(name string, pre, nNew int, lastID uint32, bound int) vsc
 			for i, r := range res {
 				if !r.returned {
 					x.Fail("C14", "newstream-hangs-after-goaway", "NewStream call %d neither admitted nor failed at quiescence after GOAWAY", i)
+					x.Fail("C11", "newstream-hangs-after-goaway", "NewStream call %d neither admitted nor failed at quiescence after the server's GOAWAY (%s)", i, x.Stuck)
 					continue
 				}
 				if r.err == nil {
@@ -383,10 +384,10 @@ func c13CancelScenario(name string, bound int) vsched.Scenario {
 }
 
 func TestVerif_C13_NewStreamSched(t *testing.T) {
-	r := vk.Start(t, "c13_newstream_sched", "exploration", "C13", "C17", "C14", "C22")
+	r := vk.Start(t, "c13_newstream_sched", "exploration", "C13", "C17", "C14", "C22", "C11")
 	defer r.Finish()
-	rule := "every schedule with at most B preemptions (quick 1, thorough 2) of a real, fully instrumented http2Client (reader, loopy and application goroutines are all scheduled threads; connection set up un-scheduled against a raw server peer over an in-memory pipe): 2-3 concurrent NewStream calls racing application stream closes and a server-side MAX_CONCURRENT_STREAMS raise with limit 1-2 (C13/C17: never more streams on the wire than the limit, no NewStream parked while quota is free at quiescence), and 2 NewStream calls racing GOAWAY(last-stream-id) (C14: every stream above the id ends unprocessed, none at or below it is failed, no call hangs), and a NewStream parked on stream quota whose context is cancelled while the quota is being freed (C22/C17: the call returns; C13: the slot is not leaked - a fresh call is admitted at once); non-trivial = executions deviating from the default schedule"
-	for _, p := range []string{"C13", "C17", "C14", "C22"} {
+	rule := "every schedule with at most B preemptions (quick 1, thorough 2) of a real, fully instrumented http2Client (reader, loopy and application goroutines are all scheduled threads; connection set up un-scheduled against a raw server peer over an in-memory pipe): 2-3 concurrent NewStream calls racing application stream closes and a server-side MAX_CONCURRENT_STREAMS raise with limit 1-2 (C13/C17: never more streams on the wire than the limit, no NewStream parked while quota is free at quiescence), and 2 NewStream calls racing GOAWAY(last-stream-id) (C14: every stream above the id ends unprocessed, none at or below it is failed, no call hangs - C11: a server GOAWAY arriving while RPCs are being created never wedges the client transport), and a NewStream parked on stream quota whose context is cancelled while the quota is being freed (C22/C17: the call returns; C13: the slot is not leaked - a fresh call is admitted at once); non-trivial = executions deviating from the default schedule"
+	for _, p := range []string{"C13", "C17", "C14", "C22", "C11"} {
 		r.Rule(p, rule)
 		r.Assume(p, "scheduling points at sync/atomic/channel operations of internal/transport suffice; x/net/http2 framing and the in-memory pipe are not instrumented")
 	}
@@ -405,8 +406,8 @@ func TestVerif_C13_NewStreamSched(t *testing.T) {
 	if r.Thorough() {
 		scs = append(scs, c13QuotaScenario("quota/mcs1/pre1/new3/close1+raise2", 1, 1, 3, 1, 2, 1), c14GoAwayScenario("goaway3/pre2/new2", 2, 2, 3, b))
 	}
-	vsched.RunScenarios(t, r, []string{"C13", "C17", "C14", "C22"}, scs)
-	for _, p := range []string{"C13", "C17", "C14", "C22"} {
+	vsched.RunScenarios(t, r, []string{"C13", "C17", "C14", "C22", "C11"}, scs)
+	for _, p := range []string{"C13", "C17", "C14", "C22", "C11"} {
 		r.Sample(p, map[string]any{"scenario": "quota/mcs1/pre1/new2/close1", "threads": []string{"new0, new1: NewStream (park on stream quota)", "close0: application closes the pre-opened stream", "background: reader, loopy"}})
 	}
 }
